@@ -7,6 +7,7 @@ import (
 	"github.com/jackc/pgx/v5/pgtype"
 	"math"
 	"strings"
+	"time"
 
 	wire "github.com/jeroenrinzema/psql-wire"
 	"github.com/lib/pq/oid"
@@ -343,6 +344,9 @@ func (ch c09) Run(c *core.Ctx) {
 		if i%12 == 9 {
 			ch.twice(c, env, core.NewRng(c.Seed, "C09t", c.Batch, i), i)
 		}
+		if i == 30 && c.Batch%4 == 2 {
+			ch.closeDuring(c, core.NewRng(c.Seed, "C09close", c.Batch, i))
+		}
 		if i%10 == 7 && limit == 0 && !st.ScanRow {
 			// the same table on two fresh connections, the second with a peer that reads slowly: one of
 			// the transport Writes of the reply, and the one or two after it, take half of their bytes and
@@ -386,6 +390,60 @@ func (ch c09) Run(c *core.Ctx) {
 	if cl != nil {
 		cl.Finish()
 	}
+}
+
+// closeDuring: Server.Close is called (by another goroutine of the embedding program) while a statement is
+// in the middle of a long result. Close waits for the statement; every row it writes arrives as written
+// (whatever the server may tell the client about the shutdown goes between messages, not into them).
+func (ch c09) closeDuring(c *core.Ctx, rng *core.Rng) {
+	env := hs.Start(hs.Parse)
+	t := c09gen(rng, false)
+	for len(t.OIDs) == 0 || len(t.OIDs) > 60 || len(t.Rows) == 0 {
+		t = c09gen(rng, false)
+	}
+	for len(t.Rows) < 1500 {
+		k := rng.Intn(len(t.Rows))
+		t.Rows, t.Forms = append(t.Rows, t.Rows[k]), append(t.Forms, t.Forms[k])
+	}
+	t.Mode = "simple"
+	t.RFmts = nil
+	cols := wire.Columns{}
+	for j, o := range t.OIDs {
+		cols = append(cols, wire.Column{Name: fmt.Sprintf("c%d", j), Oid: oid.Oid(o), Width: -1})
+	}
+	st := &hs.Stmt{ID: "closing", Cols: cols}
+	closed := make(chan struct{})
+	for i, r := range t.Rows {
+		if i == 20 {
+			st.Ops = append(st.Ops, hs.Op{K: "call", Fn: func() { go func() { env.Srv.Close(); close(closed) }() }})
+		}
+		if i > 20 && i%100 == 0 {
+			st.Ops = append(st.Ops, hs.Op{K: "call", Fn: func() { time.Sleep(time.Millisecond) }})
+		}
+		st.Ops = append(st.Ops, hs.Op{K: "row", Vals: r})
+	}
+	st.Ops = append(st.Ops, hs.Op{K: "complete", Tag: fmt.Sprintf("SELECT %d", len(t.Rows))})
+	sess := &hs.Sess{Progs: map[string]*hs.Prog{"closing-table": {Stmts: []*hs.Stmt{st}}}}
+	cl := hs.NewClient(env.Dial(sess))
+	if err := cl.StartupOK("u"); err != nil {
+		env.Stop()
+		return
+	}
+	evStart := cl.C.NEvents()
+	out, _ := cl.Step(pg.Query("closing-table"))
+	if hangCheck(c, cl, nil) {
+		return
+	}
+	c.Count("long_results_during_which_the_server_is_closed", 1)
+	ch.judge(c, t, out, false, cl.C.EventsFrom(evStart), 0)
+	cl.C.CloseWrite()
+	cl.C.WaitClosed()
+	select {
+	case <-closed:
+	case <-time.After(30 * time.Second):
+		c.Inconclusive("C09 close-during-result part: Close did not return")
+	}
+	<-env.ServeErr
 }
 
 // twice: one prepared statement, parsed once, is bound and executed a second and a third time with other
